@@ -93,7 +93,7 @@ impl builtins::Command for MapFileCommand {
                 let elem_idx = elem_idx as i64;
                 context.shell.env_mut().update_or_add_array_element(
                     &self.array_var_name,
-                    (elem_idx + origin).to_string(),
+                    elem_idx.wrapping_add(origin).to_string(),
                     value,
                     |_| Ok(()),
                     env::EnvironmentLookup::Anywhere,
